@@ -231,7 +231,9 @@ ObsOf(M, id) ==
   LET x == M.hd[id] IN
   [h |-> id, ty |-> x.ty,
    a |-> IF x.a \in DOMAIN M.mem /\ M.mem[x.a].kind = "env" THEN -2 - M.mem[x.a].cap ELSE x.a,
-   off |-> x.off, a2 |-> 0, off2 |-> 0, len |-> x.len, cap |-> x.cap,
+   off |-> x.off, a2 |-> 0, off2 |-> 0,
+   ae |-> IF x.a \in DOMAIN M.mem /\ M.mem[x.a].kind = "env" THEN -2 - M.mem[x.a].cap ELSE x.a,
+   len |-> x.len, cap |-> x.cap,
    u |-> IF x.ty = "B" THEN IsUnique(M, x) ELSE FALSE,
    d |-> IF x.a = -100 THEN [i \in 1..x.len |-> 221] ELSE Rd(M, x.a, x.off, x.len)]
 
@@ -694,7 +696,81 @@ MIntoVec ==
            M == Put(r[1], r[2])
        IN Commit(M, Event(M, "m_into_vec", h, 0, 0, 0, 0, 0, <<>>, "ok", <<nh>>, -9), Prog("m_into_vec", h, Z, Z, 0, 0, 0))
 
+(*------------------------- further operations ---------------------------*)
+MClone ==
+  /\ En("m_clone") /\ HRoom /\ Room(1)
+  /\ \E h \in Live("M") :
+       LET m == hd[h]
+           r == CopyOut(Mach, m)                  \* BytesMut::from(&self[..])
+           M == Put(r[1], FromVecM(r[2]))
+       IN Commit(M, Event(M, "m_clone", h, 0, 0, 0, 0, 0, <<>>, "ok", <<nh>>, -9), Prog("m_clone", h, Z, Z, 0, 0, 0))
+
+MClear ==
+  /\ En("m_clear")
+  /\ \E h \in Live("M") :
+       LET M == Set(Mach, h, [hd[h] EXCEPT !.len = 0])
+       IN Commit(M, Event(M, "m_clear", h, 0, 0, 0, 0, 0, <<>>, "ok", <<>>, -9), Prog("m_clear", h, Z, Z, 0, 0, 0))
+
+\* Buf::copy_to_bytes for BytesMut = split_to(n).freeze()
+MCopyToBytes ==
+  /\ En("m_copy_to_bytes") /\ HRoom /\ Room(1)
+  /\ \E h \in Live("M"), s \in IdxArgs :
+       LET m == hd[h]
+           at == EvalArg(m, s)
+           prog == Prog("m_copy_to_bytes", h, s, Z, 0, 0, 0)
+       IN IF at > m.len THEN PanicStep("m_copy_to_bytes", h, at, 0, 0, 0, prog)
+          ELSE LET M1 == ShallowCloneM(Mach, h)
+                   me == M1.hd[h]
+                   M2 == Set(M1, h, AdvM(me, at))
+                   M == Put(M2, HB("sharedM", FALSE, me.c, me.a, me.off, at))
+               IN Commit(M, Event(M, "m_copy_to_bytes", h, at, 0, 0, 0, 0, <<>>, "ok", <<nh>>, -9), prog)
+
+\* resize(new_len, val): truncate, or reserve(additional) + fill
+MResize ==
+  /\ En("m_resize") /\ Room(1)
+  /\ \E h \in Live("M"), s \in {Abs(0), Arg("len", -1), Arg("len", 1), Arg("cap", 0), Arg("cap", 1), Arg("imax", 1)} :
+       LET m == hd[h]
+           n == EvalArg(m, s)
+           val == 200
+           prog == Prog("m_resize", h, s, Z, 0, 0, val)
+       IN IF n <= m.len
+          THEN LET M == Set(Mach, h, [m EXCEPT !.len = n]) IN
+               Commit(M, Event(M, "m_resize", h, n, 0, 0, 0, val, <<>>, "ok", <<>>, -9), prog)
+          ELSE LET add == n - m.len
+                   R == IF add <= m.cap - m.len THEN [M |-> Mach, res |-> "true"] ELSE ReserveInner(Mach, h, add, TRUE)
+               IN IF R.res = "oom" THEN FALSE
+                  ELSE IF R.res = "panic" THEN PanicStep("m_resize", h, n, 0, 0, 0, prog)
+                  ELSE LET m1 == R.M.hd[h]
+                           M == Set(Wr(R.M, m1.a, m1.off + m1.len, [i \in 1..add |-> val]), h, [m1 EXCEPT !.len = n])
+                       IN Commit(M, Event(M, "m_resize", h, n, 0, 0, 0, val, <<>>, "ok", <<>>, -9), prog)
+
+\* slice_ref(&self[x..y]) (mode 0) and slice_ref(&other[..]) (mode 3): pointer-range asserts
+BSliceRef ==
+  /\ En("b_slice_ref") /\ HRoom /\ Room(1)
+  /\ \E h \in Live("B") :
+       \/ \E x \in {0, 1}, y \in {1, MaxLen} :
+            LET b == hd[h]
+                xx == Min2(Min2(x, b.len), Min2(y, b.len))
+                yy == Max2(Min2(x, b.len), Min2(y, b.len))
+                prog == Prog("b_slice_ref", h, Abs(x), Abs(y), 0, 0, 0)
+            IN IF xx = yy THEN LET M == Put(Mach, EmptyB) IN Commit(M, Event(M, "b_slice_ref", h, xx, yy, 0, 0, 0, <<>>, "ok", <<nh>>, -9), prog)
+               ELSE LET r == CloneB(Mach, h)
+                        M == Put(r[1], [r[2] EXCEPT !.off = @ + xx, !.len = yy - xx, !.cap = yy - xx])
+                    IN Commit(M, Event(M, "b_slice_ref", h, xx, yy, 0, 0, 0, <<>>, "ok", <<nh>>, -9), prog)
+       \/ \E o \in DOMAIN hd \ {h} :
+            LET b == hd[h]
+                ob == hd[o]
+                yy == Min2(MaxLen, ob.len)
+                prog == Prog("b_slice_ref", h, Abs(0), Abs(MaxLen), 3, o, 0)
+            IN IF yy = 0 THEN LET M == Put(Mach, EmptyB) IN Commit(M, Event(M, "b_slice_ref", h, 0, 0, 3, o, 0, <<>>, "ok", <<nh>>, -9), prog)
+               ELSE IF ob.a = b.a /\ ob.a # -100 /\ ob.off >= b.off /\ ob.off + yy <= b.off + b.len
+               THEN LET r == CloneB(Mach, h)
+                        M == Put(r[1], [r[2] EXCEPT !.off = ob.off, !.len = yy, !.cap = yy])
+                    IN Commit(M, Event(M, "b_slice_ref", h, 0, yy, 3, o, 0, <<>>, "ok", <<nh>>, -9), prog)
+               ELSE PanicStep("b_slice_ref", h, 0, yy, 3, o, prog)
+
 Next ==
+  \/ MClone \/ MClear \/ MCopyToBytes \/ MResize \/ BSliceRef
   \/ BNew \/ BStatic \/ BFromVec \/ BFromOwner \/ MWithCapacity \/ MFromSlice
   \/ BClone \/ BSlice \/ BSplitOff \/ BSplitTo \/ BTruncate \/ BClear \/ BAdvance
   \/ BIntoVec \/ BIntoMut \/ BTryIntoMut \/ DropAny \/ VIntoBytes
